@@ -25,9 +25,22 @@ RULE = (
     "array the caller still holds / a copy / the object itself / a flip / a binding), legal and illegal "
     "assignments through any of them (int, negative, slice, stepped-slice, list and array indices), every "
     "object's probabilities (array and per-outcome), amplitudes and normalisation re-read after every step, "
-    "returned arrays / dicts overwritten by the caller in between. "
+    "returned arrays / dicts overwritten by the caller in between; plus histories over FACTORY results "
+    "(hist_factory): dicke_state(n<=10, k), zero_state(n) next to dicke_state(n, 0), load_wavefunction of a file "
+    "written by hand or by save_wavefunction (path / handle / text), bind(map) on a symbolic object (total and "
+    "partial maps, also a second map for the same symbols), flip_wavefunction(w), Wavefunction(list / tuple), "
+    "Wavefunction(w.amplitudes), Wavefunction(w) (0-7 qubits) - each asked 2-8 times with equal arguments "
+    "inside one case, "
+    "optionally next to a neighbour request a coarse memo key could confuse it with, while the objects handed "
+    "out (and the objects read from) are modified in between through wf[idx] = value: norm-preserving "
+    "assignments (support entry exchanged with a non-support entry, weight moved or rotated between two entries, "
+    "single phase, all phases, whole new unit vector) and refused ones, spelled with int / negative / numpy-int / "
+    "tuple / slice / stepped and negative slice / index list / index array / Ellipsis indices; results dropped "
+    "and files rewritten from their edited source in between; nothing is undone at the end of a case, so later "
+    "cases of the same process meet whatever module-level state a case left behind. "
     "Non-trivial = history whose plan contains >=1 step predicted rejected and >=1 mutation predicted "
-    "accepted; distinct = distinct canonical plan strings"
+    "accepted (hist_factory: >=1 refused assignment and >=1 norm-preserving assignment followed by a new request "
+    "to the same factory); distinct = distinct canonical plan strings"
 )
 ASSUMPTIONS = [
     "invariant as stated by the property: power-of-two length and, for symbol-free entries, sum|a|^2 within "
@@ -45,6 +58,17 @@ ASSUMPTIONS = [
     "each object only normalisation and probabilities = |its current amplitudes|^2 are demanded, an object "
     "sharing nothing with the target of an assignment must come out unchanged, and after a refused assignment "
     "every object must",
+    "factory results (hist_factory): every answer of dicke_state / load_wavefunction / bind / flip_wavefunction / "
+    "Wavefunction(sequence) must be what the property says about that request given what its arguments hold NOW "
+    "(Dicke: the probabilities, phases are not demanded here; load: the numbers in the file; bind: the "
+    "substitution; flip: the bit reversal of the argument's current amplitudes), whatever was done to earlier "
+    "answers; zero_state is not named by the property and only has to be normalised - it is asked because "
+    "dicke_state(n, 0) is built from it. An accepted assignment to one object must leave every other object of "
+    "the case bit-identical, except where storage came in through the argument of the request and may therefore "
+    "legitimately be shared: Wavefunction(w.amplitudes) / Wavefunction(w) with w and with one another, a flip with "
+    "its source (observed with numpy.may_share_memory, never demanded); two answers of dicke_state, zero_state, "
+    "load_wavefunction, bind or Wavefunction(list / tuple) have no such argument, so one changing with the other "
+    "is a violation (an object nobody operated on stopped being the state it was constructed as)",
     "per-outcome probabilities: the labelling of basis states is not part of the property; the values must be the "
     "squared magnitudes under little-endian labels, big-endian labels or dictionary order",
 ]
@@ -52,7 +76,7 @@ DECIDING = [
     "Wavefunction.__init__", "setitem:accepted", "setitem:rejected", "bind:accepted", "bind:rejected",
     "Wavefunction.get_probabilities", "Wavefunction.dicke_state", "flip_amplitudes", "flip_wavefunction",
     "history-shadow", "flip-involution", "save-load", "ctor-accepts-valid",
-    "Wavefunction.get_outcome_probs", "related-invariant", "related-bystander",
+    "Wavefunction.get_outcome_probs", "related-invariant", "related-bystander", "factory-fresh", "factory-bystander",
 ]
 BRANCHES = [
     "Wavefunction.__setitem__:rollback", "Wavefunction._check_normalization:numeric-reject",
@@ -60,15 +84,15 @@ BRANCHES = [
     "Wavefunction.dicke_state:enumerate",
 ]
 EXHAUSTIVE = {"dicke": "all (n, k) with 1 <= n <= 10, 0 <= k <= n"}
-BUDGET = {"quick": (4, 40, 385), "thorough": (16, 150, 100000)}
+BUDGET = {"quick": (4, 40, 420), "thorough": (16, 150, 100000)}
 
 ISCLOSE_BAND = 1e-8 + 1e-5  # np.isclose(x, 1.0): |x-1| <= atol + rtol*1
 _TMP = None
 
 
 def classes(tier):
-    return ["hist_numeric", "hist_symbolic", "hist_mixed", "hist_column", "hist_related", "ctor", "dicke",
-            "dicke_invalid", "flip", "saveload", "simulator"]
+    return ["hist_numeric", "hist_symbolic", "hist_mixed", "hist_column", "hist_related", "hist_factory", "ctor",
+            "dicke", "dicke_invalid", "flip", "saveload", "simulator"]
 
 
 # ----------------------------------------------------------------------------- model helpers
@@ -118,9 +142,30 @@ def judge(entries):
     return "grey"
 
 
+def _store(wf):
+    """The object's amplitude container: the instance attribute named by the property's anchor where the class
+    keeps one, otherwise (another internal representation: slots, split numeric / symbolic fields) what the public
+    ``wf[:]`` hands out - same shape, same entries, and for numpy storage a view of the same memory (a sympy matrix
+    answers a single slice with the flat list of its entries and ``[:, :]`` with a matrix of its own shape)."""
+    d = getattr(wf, "__dict__", None)
+    if d is not None and "_amplitude_vector" in d:
+        return d["_amplitude_vector"]
+    try:
+        v = wf[:]
+        if isinstance(v, list):
+            try:
+                m = wf[:, :]
+            except Exception:
+                m = None
+            v = m if isinstance(m, sympy.MatrixBase) else sympy.Matrix(v)
+        return v
+    except Exception:
+        return None
+
+
 def snap(wf):
     """(kind, shape, entries, raw) of the object's amplitude store, or None"""
-    v = getattr(wf, "__dict__", {}).get("_amplitude_vector")
+    v = _store(wf)
     if isinstance(v, np.ndarray):
         if v.dtype.kind not in "cfiub":
             return None
@@ -1478,8 +1523,11 @@ def _rel_bind_map(s, how, u):
 
 
 def _stores_may_share(a, b):
-    va = getattr(a, "__dict__", {}).get("_amplitude_vector")
-    vb = getattr(b, "__dict__", {}).get("_amplitude_vector")
+    if a is b:
+        return True
+    va, vb = _store(a), _store(b)
+    if va is None or vb is None:
+        return False
     if va is vb:
         return True
     if isinstance(va, np.ndarray) and isinstance(vb, np.ndarray):
@@ -1620,6 +1668,523 @@ def _run_related(ctx):
             del tgt
         if not _rel_observe(ctx, pool, f"after {when}"):
             return
+
+
+# ----------------------------------------------------------------------------- histories over factory results
+# A *factory* is a way of obtaining a wavefunction whose arguments carry no storage of their own, or whose result
+# is specified by the property whatever happened earlier: ``dicke_state(n, k)``, ``zero_state(n)`` (the Dicke state
+# of weight 0 is built from it), ``load_wavefunction(file)``, ``w.bind(map)`` on a symbolic ``w``,
+# ``flip_wavefunction(w)``, ``Wavefunction(list_or_tuple)``, ``Wavefunction(w.amplitudes)``, ``Wavefunction(w)``.
+# Inside one case the same factory is asked several times with equal arguments; in between, the objects it handed
+# out (and the objects it reads from) are modified through the public mutator ``wf[idx] = value`` - legal,
+# norm-preserving assignments (a support entry exchanged with a non-support entry, weight moved between two entries
+# keeping the sum of squares, single phases, all phases, a whole new unit vector; spelled with int, negative,
+# numpy-integer, tuple, slice, stepped / negative slice, index list, index array and Ellipsis indices) and illegal
+# ones (refused).  Demanded of every answer: what the property says about that factory (Dicke probabilities, the
+# file's amplitudes, the substitution, the bit reversal of what the argument holds now, the listed amplitudes), as
+# if nothing had happened before.  Demanded of every other object: an assignment to X leaves Y untouched, unless
+# X and Y legitimately share storage that came in through the argument (``Wavefunction(w.amplitudes)``,
+# ``Wavefunction(w)`` and their source; a flip and its source) - there sharing is observed, never demanded.
+# Nothing is undone at the end of a case: what a case leaves behind in module-level state of the library is met by
+# the later cases of the same process (every class asks the same small factories again).
+_FAC_KINDS = ["dicke", "dicke", "dicke", "dicke", "zero", "load", "load", "bind", "bind", "flip", "ctor_seq",
+              "from_amps", "from_wf"]
+_FAC_LEGAL = ["swap_out", "swap_out", "move", "move", "rot", "swap", "phase", "phases_all", "whole"]
+_FAC_ILLEGAL = ["bad_single", "bad_pair", "bad_bcast", "bad_whole"]
+_FAC_PAIR_STYLES = ["slice", "negslice", "list", "array", "neglist", "tuple_list"]
+_FAC_ONE_STYLES = ["int", "int", "neg", "neg", "npint", "tuple"]
+_FAC_WHOLE_STYLES = ["ellipsis", "ellipsis", "colon", "range", "negrange", "list_all"]
+
+
+def _fac_vec(rng, n):
+    return [complex(_r(z.real), _r(z.imag)) for z in rand_unit_vector(rng, n)]
+
+
+def _fac_renorm(v):
+    """a vector of 6-digit constants is only normalised to ~1e-6: scale the biggest entry's neighbours away"""
+    nrm = math.sqrt(math.fsum(abs(z) ** 2 for z in v))
+    if nrm == 0:
+        return [1.0 + 0j] + [0j] * (len(v) - 1)
+    return [z / nrm for z in v]
+
+
+def _fac_bind_map(rng, ent, total):
+    syms = [e for e in ent if isinstance(e, sympy.Symbol)]
+    if not total and len(syms) >= 2:
+        some = rng.sample(syms, rng.randint(1, len(syms) - 1))
+        return {x: _r(0.02 + 0.03 * q + 0.02 * rng.random()) * rng.choice([1, -1, 1j]) for q, x in enumerate(some)}
+    rest = 1.0 - math.fsum(abs(_c(e)) ** 2 for e in ent if _is_num(e))
+    w = [rng.random() + 0.05 for _ in syms]
+    return {x: math.sqrt(max(rest, 0.0) * wx / sum(w)) * rng.choice([1, -1, 1j]) for x, wx in zip(syms, w)}
+
+
+def _fac_spec(rng, kind):
+    if kind == "dicke":
+        n = rng.choice([1, 2, 2, 3, 3, 4, 4, 5, 6, 7, 8, 9, 10])
+        return {"kind": kind, "n": n, "k": rng.randint(0, n), "kw": rng.random() < 0.25}
+    if kind == "zero":
+        return {"kind": kind, "n": rng.choice([1, 2, 2, 3, 4, 5, 8, 10])}
+    nq = rng.choice([0, 1, 1, 2, 2, 3, 3, 4, 5, 7])
+    n = 2**nq
+    if kind == "load":
+        saved = rng.random() < 0.5
+        real_only = not saved and rng.random() < 0.25
+        v = _fac_renorm([complex(z.real, 0) for z in rand_unit_vector(rng, n, "real")] if real_only else _fac_vec(rng, n))
+        return {"kind": kind, "v": v, "saved": saved, "real_only": real_only}
+    if kind == "bind":
+        n = rng.choice([2, 4, 4, 8])
+        names = rng.sample(SYMBOLS + [f"a{i}" for i in range(8)], n)
+        sym_at = set(rng.sample(range(n), rng.randint(1, n - 1)))
+        budget = rng.choice([0.0, 0.3, 0.7])
+        u = rand_unit_vector(rng, n, "dense")
+        ent = [sympy.Symbol(names[i]) if i in sym_at else _r(abs(u[i]) * math.sqrt(budget)) * rng.choice([1, -1, 1j])
+               for i in range(n)]
+        total = rng.random() < 0.6 or len(sym_at) < 2
+        return {"kind": kind, "ent": ent, "total": total, "map": _fac_bind_map(rng, ent, total),
+                "as_matrix": rng.random() < 0.3}
+    if kind == "flip":
+        return {"kind": kind, "v": _fac_renorm(_fac_vec(rng, n)), "column": rng.random() < 0.25}
+    if kind == "ctor_seq":
+        form = rng.choice(["list", "tuple", "tuple", "real_list"])
+        if form == "real_list":
+            v = _fac_renorm([complex(_r(z.real), 0) for z in rand_unit_vector(rng, n, "real")])
+        else:
+            v = _fac_renorm(_fac_vec(rng, n))
+        return {"kind": kind, "v": v, "form": form}
+    return {"kind": kind, "v": _fac_renorm(_fac_vec(rng, n)), "column": rng.random() < 0.2}
+
+
+def _fac_neighbour(rng, sp):
+    """a second request that agrees with the first in what a too-coarse memo key could look at"""
+    kind = sp["kind"]
+    if kind == "dicke":
+        n, k = sp["n"], sp["k"]
+        cand = [(n, kk) for kk in range(n + 1) if kk != k] + [(n + 1, k)] + ([(n - 1, k)] if n - 1 >= max(1, k) else [])
+        n2, k2 = rng.choice(cand)
+        return {"kind": kind, "n": n2, "k": k2, "kw": rng.random() < 0.25}
+    if kind == "bind":
+        out = dict(sp)
+        out["map"] = _fac_bind_map(rng, sp["ent"], sp["total"])
+        if not sp["total"]:
+            out["map"] = {x: _r(abs(_c(v)) + 0.01) * rng.choice([1, -1, 1j]) for x, v in sp["map"].items()}
+        out["src_of"] = 0  # the same symbolic object is bound with other values for the same symbols
+        return out
+    out = dict(sp)
+    n = len(sp["v"])
+    if kind == "load" and sp["real_only"]:
+        out["v"] = _fac_renorm([complex(z.real, 0) for z in rand_unit_vector(rng, n, "real")])
+    elif kind == "ctor_seq" and sp["form"] == "real_list":
+        out["v"] = _fac_renorm([complex(_r(z.real), 0) for z in rand_unit_vector(rng, n, "real")])
+    else:
+        out["v"] = _fac_renorm(_fac_vec(rng, n))
+    return out
+
+
+def _fac_spec_str(sp):
+    kind = sp["kind"]
+    if kind == "dicke":
+        return f"dicke({sp['n']},{sp['k']}{',kw' if sp['kw'] else ''})"
+    if kind == "zero":
+        return f"zero({sp['n']})"
+    if kind == "bind":
+        m = ",".join(f"{k}:{_vstr(v)}" for k, v in sp["map"].items())
+        return (f"bind({_vstr(sp['ent'])}{',matrix' if sp['as_matrix'] else ''}{',same-object' if 'src_of' in sp else ''}"
+                f";{{{m}}})")
+    extra = "".join(f",{k}={sp[k]}" for k in ("saved", "real_only", "column", "form") if k in sp and sp[k])
+    return f"{kind}({_vstr(sp['v'])}{extra})"
+
+
+def _plan_factory(rng, quick):
+    kind = rng.choice(_FAC_KINDS)
+    specs = [_fac_spec(rng, kind)]
+    if kind == "zero":
+        specs.append({"kind": "dicke", "n": specs[0]["n"], "k": 0, "kw": rng.random() < 0.25})
+    elif rng.random() < 0.55:
+        specs.append(_fac_neighbour(rng, specs[0]))
+    sizes = []
+    for sp in specs:
+        sizes.append(2 ** sp["n"] if "n" in sp else len(sp.get("v", sp.get("ent", []))))
+    events = [("ask", 0, _r(rng.random()))]
+    if rng.random() < 0.6:
+        events.append(("ask", 0, _r(rng.random())))
+    if len(specs) > 1:
+        events.append(("ask", 1, _r(rng.random())))
+    for _ in range(rng.randint(4, 9 if quick else 18)):
+        r = rng.random()
+        si = rng.randrange(len(specs))
+        if r < 0.55:
+            legal = rng.random() < 0.72
+            op = rng.choice(_FAC_LEGAL if legal else _FAC_ILLEGAL)
+            whole = _fac_renorm(_fac_vec(rng, sizes[si])) if op == "whole" else None
+            t = rng.choice([rng.uniform(0.1, 2 * math.pi - 0.1), rng.uniform(0.1, 3.0), math.pi / 2, math.pi, 1e-3])
+            events.append(("edit", si, _r(rng.random()), legal, op,
+                           rng.choice(_REL_LEGAL_MAT if legal else _REL_ILLEGAL_MAT), _r(rng.random()), _r(rng.random()),
+                           _r(t), rng.choice(_FAC_PAIR_STYLES), rng.choice(_FAC_ONE_STYLES),
+                           rng.choice(_FAC_WHOLE_STYLES), rng.choice(_REL_STYLES), whole))
+            if legal and rng.random() < 0.5:
+                events.append(("ask", si, _r(rng.random())))
+        elif r < 0.82:
+            events.append(("ask", si, _r(rng.random())))
+        elif r < 0.91:
+            events.append(("drop", si, _r(rng.random())))
+        else:
+            events.append(("resave", si, _r(rng.random())))
+    for si in range(len(specs)):
+        events.append(("ask", si, _r(rng.random())))
+    return specs, events
+
+
+def _fac_describe(specs, events):
+    out = []
+    for ev in events:
+        if ev[0] == "edit":
+            w = "" if ev[13] is None else "," + _vstr(ev[13])
+            out.append(f"{'legal' if ev[3] else 'illegal'}(f{ev[1]},{ev[2]},{ev[4]}|{ev[5]},{ev[6]},{ev[7]},{ev[8]},"
+                       f"{ev[9]}/{ev[10]}/{ev[11]}/{ev[12]}{w})")
+        else:
+            out.append(f"{ev[0]}(f{ev[1]},{ev[2]})")
+    return "hist_factory " + " & ".join(f"f{i}={_fac_spec_str(sp)}" for i, sp in enumerate(specs)) + " :: " + "; ".join(out)
+
+
+def _fac_edit_nd(ev, s):
+    """(index, value) of a planned assignment for a target whose store is the numeric array snapshot ``s``"""
+    _, _, _, legal, op, _, u1, u2, t, pstyle, ostyle, wstyle, _, whole = ev
+    shape, ent = s[1], s[2]
+    n = len(ent)
+    two_d = len(shape) == 2
+
+    def col(vals):
+        return [[v] for v in vals] if two_d else list(vals)
+
+    def one(i):
+        if ostyle == "neg":
+            return i - n
+        if ostyle == "npint":
+            return np.int64(i)
+        if ostyle == "tuple":
+            return (i, 0) if two_d else (i,)
+        return i
+
+    def everything():
+        if wstyle == "colon":
+            return slice(None)
+        if wstyle == "range":
+            return slice(0, n)
+        if wstyle == "negrange":
+            return slice(-n, None)
+        if wstyle == "list_all":
+            return list(range(n))
+        return Ellipsis
+
+    def pair(i, j):
+        if pstyle == "slice":
+            return slice(i, j + 1, j - i)
+        if pstyle == "negslice":
+            return slice(i - n, (j + 1 - n) if j + 1 < n else None, j - i)
+        if pstyle == "array":
+            return np.array([i, j])
+        if pstyle == "neglist":
+            return [i - n, j - n]
+        if pstyle == "tuple_list":
+            return ([i, j], 0) if two_d else ([i, j],)
+        return [i, j]
+
+    flat_pair = pstyle == "tuple_list" and two_d  # wf[[i, j], 0] takes a flat pair of values
+    nz = [i for i, e in enumerate(ent) if abs(e) > 1e-6] or [0]
+    zs = [i for i, e in enumerate(ent) if abs(e) <= 1e-6]
+    a_pos = nz[min(int(u1 * len(nz)), len(nz) - 1)]
+    others = [x for x in range(n) if x != a_pos]
+    if op == "whole" and whole is not None and len(whole) == n:
+        return everything(), col(whole)
+    if op == "phases_all" or (op == "whole"):
+        return everything(), col([e * cmath.exp(1j * t * (q + 1)) for q, e in enumerate(ent)])
+    if op == "bad_whole":
+        return everything(), _r(0.9 + 0.5 * u2)
+    if op == "bad_single" or (not others and not legal):
+        return one(a_pos), (abs(ent[a_pos]) + 0.3 + 0.5 * u2) * (1 if u1 < 0.5 else 1j)
+    if not others or op == "phase":
+        return one(a_pos), ent[a_pos] * cmath.exp(1j * t)
+    cand = zs if (op == "swap_out" and zs) else others
+    b_pos = cand[min(int(u2 * len(cand)), len(cand) - 1)]
+    i, j = min(a_pos, b_pos), max(a_pos, b_pos)
+    a, b = ent[i], ent[j]
+    shape_vals = (lambda vals: list(vals)) if flat_pair else col
+    if op in ("swap", "swap_out"):
+        return pair(i, j), shape_vals([b, a])
+    if op == "move":
+        m = math.sqrt(abs(a) ** 2 + abs(b) ** 2)
+        return pair(i, j), shape_vals([0.0, m] if u2 < 0.5 else [m * cmath.exp(1j * t), 0.0])
+    if op == "rot":
+        return pair(i, j), shape_vals([math.cos(t) * a - math.sin(t) * b, math.sin(t) * a + math.cos(t) * b])
+    if op == "bad_pair":
+        return pair(i, j), shape_vals([_r(0.55 + 0.4 * u1), _r(-0.55 - 0.4 * u2)])
+    return slice(i, None), _r(0.75 + 0.2 * u2)  # bad_bcast
+
+
+def _fac_expected(st, states):
+    """what the property says the factory must answer now: ('probs' | 'amps', values, tolerance) or None"""
+    sp = st["spec"]
+    kind = sp["kind"]
+    if kind == "dicke":
+        n, k = sp["n"], sp["k"]
+        p = 1.0 / math.comb(n, k)
+        return "probs", [p if bin(i).count("1") == k else 0.0 for i in range(2**n)], 1e-12
+    if kind == "zero":
+        return None  # the property names no zero-state constructor: only the invariant (judged at the constructor)
+    if kind == "load":
+        return "amps", list(st["file_v"]), (0.0 if sp["saved"] else 1e-12)
+    if kind == "ctor_seq":
+        return "amps", list(sp["v"]), 1e-12
+    s = snap(_fac_src(st, states))
+    if s is None:
+        return None
+    if kind == "bind":
+        if s[0] != "mat":
+            return "amps", list(s[2]), 0.0
+        try:
+            exp = _subs_entries(s[2], sp["map"])
+        except Exception:
+            return None
+        if judge(exp) != "ok" or any(isinstance(e, sympy.Basic) and e.has(sympy.nan, sympy.zoo) for e in exp):
+            return None
+        return "amps", exp, 1e-12
+    if kind == "flip":
+        n = len(s[2])
+        rev = L.bit_reversal_perm(n.bit_length() - 1)
+        return "amps", [s[2][rev[i]] for i in range(n)], 0.0
+    return "amps", list(s[2]), 0.0  # from_amps, from_wf
+
+
+def _fac_src(st, states):
+    return states[st["spec"]["src_of"]]["src"] if "src_of" in st["spec"] else st["src"]
+
+
+def _fac_write(st, ctx):
+    """(re)write the file of a 'load' request; remembers what the file holds"""
+    from orquestra.quantum.wavefunction import save_wavefunction
+
+    sp = st["spec"]
+    if sp["saved"]:
+        s = snap(st["src"])
+        save_wavefunction(st["src"], st["path"])
+        st["file_v"] = list(s[2])
+        return
+    v = sp["v"]
+    data = {"amplitudes": {"real": [z.real for z in v]}}
+    if not sp["real_only"]:
+        data["amplitudes"]["imag"] = [z.imag for z in v]
+    with open(st["path"], "w") as f:
+        json.dump(data, f)
+    st["file_v"] = [complex(z) for z in v]
+
+
+def _fac_ask(ctx, st, states, u):
+    """one more request to the factory: (object or None, exception or None)"""
+    from orquestra.quantum.wavefunction import Wavefunction, flip_wavefunction, load_wavefunction
+
+    sp = st["spec"]
+    kind = sp["kind"]
+    try:
+        if kind == "dicke":
+            if sp["kw"]:
+                return Wavefunction.dicke_state(n_qubits=sp["n"], hamming_weight=sp["k"]), None
+            return Wavefunction.dicke_state(sp["n"], sp["k"]), None
+        if kind == "zero":
+            return Wavefunction.zero_state(sp["n"]), None
+        if kind == "load":
+            if u < 0.5:
+                return load_wavefunction(st["path"]), None
+            with open(st["path"]) as f:
+                if u < 0.75:
+                    return load_wavefunction(f), None
+                return load_wavefunction(io.StringIO(f.read())), None
+        if kind == "ctor_seq":
+            return Wavefunction(st["arg"]), None
+        src = _fac_src(st, states)
+        if kind == "bind":
+            return src.bind(dict(sp["map"])), None
+        if kind == "flip":
+            return flip_wavefunction(src), None
+        if kind == "from_amps":
+            return Wavefunction(src.amplitudes), None
+        return Wavefunction(src), None
+    except Exception as e:  # the hooks judge refusals; the driver only records them
+        return None, e
+
+
+def _run_factory(ctx):
+    from orquestra.quantum.wavefunction import Wavefunction
+
+    global _TMP
+    rng = ctx.rng
+    specs, events = _plan_factory(rng, ctx.quick)
+    seen_legal = set()
+    reask = False
+    for ev in events:
+        if ev[0] == "edit" and ev[3]:
+            seen_legal.add(ev[1])
+        elif ev[0] == "ask" and ev[1] in seen_legal:
+            reask = True
+    ctx.describe(_fac_describe(specs, events)[:6000],
+                 reask and any(ev[0] == "edit" and not ev[3] for ev in events))
+    if _TMP is None:
+        _TMP = tempfile.mkdtemp(prefix="rv-c12-")
+
+    states = []
+    paths = []
+    try:
+        for i, sp in enumerate(specs):
+            st = {"spec": sp, "objs": [], "src": None, "arg": None, "path": None, "file_v": None}
+            kind = sp["kind"]
+            if kind == "load":
+                st["path"] = os.path.join(_TMP, f"fac{ctx.index}_{i}.json")
+                paths.append(st["path"])
+                if sp["saved"]:
+                    st["src"] = Wavefunction(list(sp["v"]))
+                _fac_write(st, ctx)
+            elif kind == "bind" and "src_of" not in sp:
+                st["src"] = Wavefunction(sympy.Matrix(sp["ent"]) if sp["as_matrix"] else list(sp["ent"]))
+            elif kind in ("flip", "from_amps", "from_wf"):
+                n = len(sp["v"])
+                st["src"] = Wavefunction(np.array(sp["v"], dtype=complex).reshape(n, 1) if sp["column"] else list(sp["v"]))
+            elif kind == "ctor_seq":
+                vals = [z.real for z in sp["v"]] if sp["form"] == "real_list" else list(sp["v"])
+                st["arg"] = tuple(vals) if sp["form"] == "tuple" else vals
+                st["arg_copy"] = list(vals)
+            states.append(st)
+        _fac_events(ctx, states, events)
+    finally:
+        for p in paths:
+            if os.path.exists(p):
+                os.remove(p)
+
+
+def _fac_tracked(states):
+    """every live object of the case once: (label, object, state index, is_source)"""
+    out, ids = [], set()
+    for i, st in enumerate(states):
+        for q, w in enumerate([st["src"]] + st["objs"]):
+            if w is not None and id(w) not in ids:
+                ids.add(id(w))
+                out.append((f"f{i}.{'source' if q == 0 else 'result%d' % (q - 1)}", w, i, q == 0))
+    return out
+
+
+def _fac_by_design(states, x, y):
+    """may an assignment through x show in y?  Only where storage came in through the argument of the request."""
+    kx, ky = states[x[2]]["spec"]["kind"], states[y[2]]["spec"]["kind"]
+    if x[2] != y[2] or not _stores_may_share(x[1], y[1]):
+        return False
+    if kx in ("from_amps", "from_wf"):
+        return True
+    if kx == "flip":
+        return x[3] or y[3]
+    return False
+
+
+def _fac_events(ctx, states, events):
+    for num, ev in enumerate(events):
+        st = states[ev[1]]
+        sp = st["spec"]
+        kind = sp["kind"]
+        when = f"event {num} {ev[0]}(f{ev[1]})"
+        tracked = _fac_tracked(states)
+        before = [snap(t[1]) for t in tracked]
+        target = None
+        accepted = False
+        what = ev[0]
+        if ev[0] == "resave" and not (kind == "load" and sp["saved"]):
+            what = "ask"
+        if ev[0] in ("edit", "drop"):
+            cands = [t for t in tracked if t[2] == ev[1] or ("src_of" in sp and t[2] == sp["src_of"] and t[3])]
+            if not cands:
+                what = "ask"
+        if what == "ask":
+            exp = _fac_expected(st, states)
+            new, exc = _fac_ask(ctx, st, states, ev[2])
+            ctx.mon.note(f"factory:{kind}:ask:{'ok' if exc is None else type(exc).__name__}")
+            if exc is not None:
+                if kind != "bind":
+                    ctx.check("factory-fresh", False, f"{when}: {_fac_spec_str(sp)[:300]} raised {exc!r}")
+                    return
+            elif any(new is t[1] for t in tracked):
+                ctx.mon.note(f"factory:{kind}:returned-an-existing-object")
+            else:
+                s = snap(new)
+                ok = s is not None and judge(s[2]) != "bad"
+                detail = None
+                if ok and exp is not None:
+                    if exp[0] == "probs":
+                        got = [abs(_c(e)) ** 2 if _is_num(e) else None for e in s[2]]
+                        ok = len(got) == len(exp[1]) and all(g is not None and abs(g - p) <= exp[2] for g, p in zip(got, exp[1]))
+                        detail = f"probabilities {short_entries(got)} instead of {short_entries(exp[1])}"
+                    else:
+                        ok = entries_close(s[2], exp[1], tol=exp[2])
+                        detail = f"amplitudes {short_entries(s[2])} instead of {short_entries(exp[1])}"
+                ctx.check("factory-fresh", ok, lambda: (
+                    f"{when}: {_fac_spec_str(sp)[:300]} answered with "
+                    f"{detail or (s and short_entries(s[2]))} after the earlier events of this case"))
+                if not ok:
+                    return
+                new.get_probabilities()  # judged by the hook against the object's own store
+                if any(_stores_may_share(new, t[1]) for t in tracked):
+                    ctx.mon.note(f"factory:{kind}:answer-shares-storage-with-a-live-object")
+                st["objs"].append(new)
+                if len(st["objs"]) > 4:
+                    del st["objs"][1]
+            del new
+        elif what == "resave":
+            _fac_write(st, ctx)
+            ctx.mon.note("factory:load:file-rewritten-from-its-source")
+        elif what == "drop":
+            pick = cands[min(int(ev[2] * len(cands)), len(cands) - 1)]
+            if not pick[3]:
+                states[pick[2]]["objs"] = [w for w in states[pick[2]]["objs"] if w is not pick[1]]
+                ctx.mon.note(f"factory:{kind}:dropped-a-result")
+            del pick
+        else:
+            pick = cands[min(int(ev[2] * len(cands)), len(cands) - 1)]
+            target = pick
+            s = snap(pick[1])
+            if s is None:
+                return
+            if s[0] == "nd":
+                idx, val = _fac_edit_nd(ev, s)
+            else:
+                idx, val = _rel_step_mat(("legal" if ev[3] else "illegal", 0, None, ev[5], ev[6], ev[7], ev[8], ev[12], None), s)
+            try:
+                pick[1][idx] = val
+                accepted = True
+                raised = None
+            except Exception as e:  # accept / reject is judged by the hook on __setitem__
+                raised = e
+            ctx.mon.note(f"factory:{kind}:{'source' if pick[3] else 'result'}:{ev[4] if s[0] == 'nd' else ev[5]}:"
+                         f"{_index_kind(s, idx)}:{'accepted' if accepted else 'rejected'}")
+            del pick
+        # nobody but the target of an accepted assignment may have changed
+        for t, b in zip(tracked, before):
+            if target is not None and t[1] is target[1] and accepted:
+                continue
+            if target is not None and accepted and _fac_by_design(states, target, t):
+                ctx.mon.note("factory:assignment-seen-through-storage-shared-by-design")
+                continue
+            now = snap(t[1])
+            ok = same_snap(b, now)
+            ctx.check("factory-bystander", ok, lambda: (
+                f"{when}"
+                + (f": wf[{idx!r}] = {_vstr(val)} on {target[0]} "
+                   f"({'accepted' if accepted else 'raised ' + type(raised).__name__})" if target is not None else "")
+                + f" changed {t[0]} of {_fac_spec_str(states[t[2]]['spec'])[:200]}: {b and short_entries(b[2])} -> "
+                  f"{now and short_entries(now[2])}"))
+            if not ok:
+                return
+        for i, s2 in enumerate(states):
+            if s2["arg"] is not None:
+                ok = list(s2["arg"]) == s2["arg_copy"]
+                ctx.check("factory-bystander", ok, lambda: f"{when} changed the caller's sequence given to Wavefunction(...)")
+                if not ok:
+                    return
+        del tracked, target
 
 
 def _ctor_case(ctx):
@@ -1932,6 +2497,8 @@ def run_case(ctx):
     cls = ctx.cls
     if cls == "hist_related":
         return _run_related(ctx)
+    if cls == "hist_factory":
+        return _run_factory(ctx)
     if cls.startswith("hist_"):
         return _run_history(ctx, cls)
     if cls == "ctor":
